@@ -9,6 +9,8 @@ import (
 	"bytes"
 	"context"
 	"fmt"
+	"github.com/libp2p/go-libp2p-kad-dht/internal"
+	record "github.com/libp2p/go-libp2p-record"
 	"sort"
 	"strings"
 	"testing"
@@ -89,7 +91,18 @@ func TestVerifC06(t *testing.T) {
 		switch c06Ops[op] {
 		case "PutValue":
 			c.keyKad = simKad([]byte(valueKey))
-			hk.op = func(ctx context.Context, d *IpfsDHT) error { return d.PutValue(ctx, valueKey, putVal) }
+			// a third of the puts republish a value the node already holds (stored ten virtual minutes earlier):
+			// the record sent must still be the one the local store holds when the first message leaves
+			republish := r.Chance(35)
+			var opStart time.Time
+			hk.op = func(ctx context.Context, d *IpfsDHT) error {
+				if republish {
+					_ = d.putLocal(ctx, valueKey, record.MakePutRecord(valueKey, putVal))
+					time.Sleep(10 * time.Minute)
+				}
+				opStart = time.Now()
+				return d.PutValue(ctx, valueKey, putVal)
+			}
 			hk.isSend = func(m *pb.Message) bool { return m.GetType() == pb.Message_PUT_VALUE }
 			hk.sendOK = func(d *IpfsDHT, call *simCall) bool {
 				rec := call.req.GetRecord()
@@ -97,7 +110,12 @@ func TestVerifC06(t *testing.T) {
 			}
 			hk.localHeld = func(d *IpfsDHT) bool {
 				rec, err := d.getLocal(context.Background(), valueKey)
-				return err == nil && rec != nil && bytes.Equal(rec.GetValue(), putVal)
+				if err != nil || rec == nil || !bytes.Equal(rec.GetValue(), putVal) {
+					return false
+				}
+				// the record of THIS put: written by it, not a copy left by an earlier one
+				tr, err := internal.ParseRFC3339(rec.GetTimeReceived())
+				return err == nil && !tr.Before(opStart.Truncate(time.Second))
 			}
 		case "ProvideClassic", "ProvideOptimistic":
 			c.keyKad = simKad([]byte(wTestCid.Hash()))
